@@ -189,7 +189,7 @@ def run(ctx):
     specs += calendar_specs(ctx.seed, 12 if ctx.tier == 'quick' else 60, 'c13cal_')
     specs += both_specs(ctx.seed, 8 if ctx.tier == 'quick' else 40, 'c13both_')
     # coarse assets with a window of their own that begins before the horizon (by no multiple of the coarse step, or by more than one)
-    specs += gen.gen_many(ctx.seed, n // 3, dict(CFG, p_coarse=1.0, p_periodic=0.0, coarse_windows=True, p_coarse_early=0.6, freqs=['h', '30min'], T=(6, 12), n_assets=(1, 2)), 'c13cw_')
+    specs += gen.gen_many(ctx.seed, n // 3, dict(CFG, p_coarse=1.0, p_periodic=0.0, coarse_windows=True, p_coarse_window=1.0, p_coarse_before=0.7, p_coarse_early=0.2, freqs=['h', '30min'], T=(6, 12), n_assets=(1, 2)), 'c13cw_')
     specs = [claim_domain(sp) for sp in ctx.specs(specs)]
     res = C.run_impl('reference', specs)
     small = [sp for sp in specs if sp['grid']['T'] <= 16]
